@@ -162,6 +162,11 @@ theorem xev_le (cfg : Cfg) (s : XState) (e : Ev) (hd : s.finished = false → s.
       simp only [addItemsState]; split
       · rename_i e; subst e; omega
       · exact Nat.le_refl _
+  | nlObj => simp only [xev]; split <;> exact ⟨Nat.le_refl _, fun _ => Nat.le_refl _, fun _ => Nat.le_refl _, fun _ => Nat.le_refl _⟩
+  | nlCon l => simp only [xev]; split <;> exact ⟨Nat.le_refl _, fun _ => Nat.le_refl _, fun _ => Nat.le_refl _, fun _ => Nat.le_refl _⟩
+  | nlDefVar => simp only [xev]; split <;> exact ⟨Nat.le_refl _, fun _ => Nat.le_refl _, fun _ => Nat.le_refl _, fun _ => Nat.le_refl _⟩
+  | addObj info => simp only [xev]; split <;> exact ⟨Nat.le_refl _, fun _ => Nat.le_refl _, fun _ => Nat.le_refl _, fun _ => Nat.le_refl _⟩
+  | setObj i info => simp only [xev]; split <;> exact ⟨Nat.le_refl _, fun _ => Nat.le_refl _, fun _ => Nat.le_refl _, fun _ => Nat.le_refl _⟩
   | link lty en src dst =>
     simp only [xev]; split
     · exact ⟨Nat.le_refl _, fun _ => Nat.le_refl _, fun _ => Nat.le_refl _, fun _ => Nat.le_refl _⟩
@@ -396,6 +401,44 @@ theorem einv_link (cfg : Cfg) (s : XState) (h : EInv cfg s) (lty : Str) (en : Na
       rw [filter_append_nil _ _ _ (by intro x hx; simp at hx; subst hx; rfl)]; exact f1 ty hty
     · simp only [md_append]; rw [f2]; simp [markedDelivered]
 
+theorem objRecs_mem : ∀ (l : List ObjInfo) (i0 : Nat) (r : Rec), r ∈ objRecs i0 l →
+    ∃ k o, r = Rec.obj (i0 + k) o ∧ l[k]? = some o
+  | [], _, r, h => by simp [objRecs] at h
+  | o :: l, i0, r, h => by
+    simp only [objRecs, List.mem_cons] at h
+    rcases h with h | h
+    · exact ⟨0, o, by simpa using h, by simp⟩
+    · obtain ⟨k, o', e, hk⟩ := objRecs_mem l (i0 + 1) r h
+      exact ⟨k + 1, o', by rw [e]; congr 1; omega, by simpa using hk⟩
+
+/-- an event that appends one record which is neither a creation, status, link nor variable record and leaves the
+    variables, keepers, deliveries, node sizes and handed-out ranges alone -/
+theorem einv_append1 (cfg : Cfg) (s s' : XState) (h : EInv cfg s) (r : Rec)
+    (ho : s'.out = s.out ++ [r]) (hv : s'.vars = s.vars) (hc : s'.cons = s.cons) (hd : s'.delivered = s.delivered)
+    (hf : s'.finished = s.finished) (he : s'.extra = s.extra) (hcr : s'.created = s.created) (hnf : s.finished = false)
+    (k1 : ∀ ty, isNew ty r = false) (k2 : isStatus r = false) (k3 : ∀ lty e a b, r ≠ Rec.link lty e a b)
+    (k4 : ∀ i b info, r ≠ Rec.var i b info) : EInv cfg s' := by
+  have hle : SLe s s' := ⟨by rw [hv]; exact Nat.le_refl _, fun t => by rw [hc]; exact Nat.le_refl _,
+    fun g => by rw [hd]; exact Nat.le_refl _, fun t => by rw [he]; exact Nat.le_refl _⟩
+  refine ⟨?_, ?_, ?_, ?_, ?_, ?_, ?_, fun hfin => by rw [hf, hnf] at hfin; cases hfin⟩
+  · intro ty; rw [ho, hc, filter_append_nil _ _ _ (by intro x hx; simp at hx; subst hx; exact k1 ty)]; exact h.news ty
+  · intro _ x hx; rw [ho] at hx; simp only [List.mem_append, List.mem_singleton] at hx
+    rcases hx with hx | hx
+    · exact h.nostat hnf x hx
+    · subst hx; exact k2
+  · intro _; rw [hd]; exact h.nodeliv hnf
+  · intro lty e src dst hm x hx; rw [ho] at hm; simp only [List.mem_append, List.mem_singleton] at hm
+    rcases hm with hm | hm
+    · exact refIn_of_le cfg s s' hle x (h.links lty e src dst hm x hx)
+    · exact absurd hm.symm (k3 lty e src dst)
+  · intro a ha; rw [hcr] at ha; exact refIn_of_le cfg s s' hle a (h.createdIn a ha)
+  · intro i hi; rw [hv] at hi; obtain ⟨b, info, hm⟩ := h.vars1 i hi; exact ⟨b, info, by rw [ho]; simp [hm]⟩
+  · intro i b info hm; rw [ho] at hm; simp only [List.mem_append, List.mem_singleton] at hm
+    rw [hv]
+    rcases hm with hm | hm
+    · exact h.vars2 i b info hm
+    · exact absurd hm.symm (k4 i b info)
+
 theorem einv_finish (cfg : Cfg) (hn : cfg.types.Nodup) (s : XState) (h : EInv cfg s) (hf : s.finished = false) :
     EInv cfg (finishState cfg s) := by
   have hd := h.nodeliv hf
@@ -405,40 +448,56 @@ theorem einv_finish (cfg : Cfg) (hn : cfg.types.Nodup) (s : XState) (h : EInv cf
   have hvar : ∀ r, r ∈ varRecs 0 s.vars → ∃ k b info, r = Rec.var k b info ∧ k < s.vars.length := by
     intro r hr; obtain ⟨k, b, info, e, hk⟩ := varRecs_mem s.vars 0 r hr
     exact ⟨k, b, info, by simpa using e, hk⟩
+  have hobj : ∀ r, r ∈ objRecs 0 s.objs → ∃ k o, r = Rec.obj k o := by
+    intro r hr; obtain ⟨k, o, e, _⟩ := objRecs_mem s.objs 0 r hr; exact ⟨_, o, e⟩
   have hgrp : ∀ r, r ∈ cfg.types.map (fun ty => Rec.conGroup ty (cfg.grp ty)) → ∃ t g, r = Rec.conGroup t g := by
     intro r hr; simp only [List.mem_map] at hr; obtain ⟨t, _, e⟩ := hr; exact ⟨t, _, e.symm⟩
-  have hnotnew : ∀ ty r, r ∈ varRecs 0 s.vars ++ ((allFinish cfg s.cons cfg.types).1 ++ cfg.types.map (fun ty => Rec.conGroup ty (cfg.grp ty))) →
-      isNew ty r = false := by
+  have hmem : ∀ r, r ∈ finishRecs cfg s → (∃ k b info, r = Rec.var k b info ∧ k < s.vars.length) ∨ (∃ k o, r = Rec.obj k o) ∨
+      r ∈ (allFinish cfg s.cons cfg.types).1 ∨ (∃ t g, r = Rec.conGroup t g) := by
+    intro r hr
+    simp only [finishRecs, List.mem_append] at hr
+    rcases hr with hr | hr | hr | hr
+    · exact Or.inl (hvar r hr)
+    · exact Or.inr (Or.inl (hobj r hr))
+    · exact Or.inr (Or.inr (Or.inl hr))
+    · exact Or.inr (Or.inr (Or.inr (hgrp r hr)))
+  have hnotnew : ∀ ty r, r ∈ finishRecs cfg s → isNew ty r = false := by
     intro ty r hr
-    simp only [List.mem_append] at hr
-    rcases hr with hr | hr | hr
-    · obtain ⟨k, b, info, e, _⟩ := hvar r hr; subst e; rfl
-    · exact (af_status cfg s.cons cfg.types r hr).2 ty
-    · obtain ⟨t, g, e⟩ := hgrp r hr; subst e; rfl
+    rcases hmem r hr with ⟨k, b, info, e, _⟩ | ⟨k, o, e⟩ | hr' | ⟨t, g, e⟩
+    · subst e; rfl
+    · subst e; rfl
+    · exact (af_status cfg s.cons cfg.types r hr').2 ty
+    · subst e; rfl
   refine ⟨?_, fun hfin => by simp [finishState] at hfin, fun hfin => by simp [finishState] at hfin, ?_,
     fun a ha => refIn_of_le cfg s _ hle a (h.createdIn a ha), ?_, ?_, ?_⟩
-  · intro ty; simp only [finishState, finishRecs]; rw [filter_append_nil _ _ _ (hnotnew ty)]; exact h.news ty
+  · intro ty; simp only [finishState]; rw [filter_append_nil _ _ _ (hnotnew ty)]; exact h.news ty
   · intro lty e src dst hm r hr
-    simp only [finishState, finishRecs, List.mem_append] at hm
-    rcases hm with hm | hm | hm | hm
+    simp only [finishState, List.mem_append] at hm
+    rcases hm with hm | hm
     · exact refIn_of_le cfg s _ hle r (h.links lty e src dst hm r hr)
-    · obtain ⟨k, b, info, e', _⟩ := hvar _ hm; cases e'
-    · have := (af_status cfg s.cons cfg.types _ hm).1; simp [isStatus] at this
-    · obtain ⟨t, g, e'⟩ := hgrp _ hm; cases e'
+    · rcases hmem _ hm with ⟨k, b, info, e', _⟩ | ⟨k, o, e'⟩ | hr' | ⟨t, g, e'⟩
+      · cases e'
+      · cases e'
+      · have := (af_status cfg s.cons cfg.types _ hr').1; simp [isStatus] at this
+      · cases e'
   · intro i hi
     obtain ⟨b', info', hm⟩ := h.vars1 i hi
     exact ⟨b', info', by simp [finishState, hm]⟩
   · intro i b' info' hm
-    simp only [finishState, finishRecs, List.mem_append] at hm
-    rcases hm with hm | hm | hm | hm
+    simp only [finishState, List.mem_append] at hm
+    rcases hm with hm | hm
     · exact h.vars2 i b' info' hm
-    · obtain ⟨k, b, info, e', hk⟩ := hvar _ hm; cases e'; exact hk
-    · have := (af_status cfg s.cons cfg.types _ hm).1; simp [isStatus] at this
-    · obtain ⟨t, g, e'⟩ := hgrp _ hm; cases e'
+    · rcases hmem _ hm with ⟨k, b, info, e', hk⟩ | ⟨k, o, e'⟩ | hr' | ⟨t, g, e'⟩
+      · cases e'; exact hk
+      · cases e'
+      · have := (af_status cfg s.cons cfg.types _ hr').1; simp [isStatus] at this
+      · cases e'
   · intro _
     have hold : ∀ r, r ∈ s.out → isStatus r = false := h.nostat hf
     have hvs : ∀ r, r ∈ varRecs 0 s.vars → isStatus r = false := by
       intro r hr; obtain ⟨k, b, info, e, _⟩ := hvar r hr; subst e; rfl
+    have hos : ∀ r, r ∈ objRecs 0 s.objs → isStatus r = false := by
+      intro r hr; obtain ⟨k, o, e⟩ := hobj r hr; subst e; rfl
     have hgs : ∀ r, r ∈ cfg.types.map (fun ty => Rec.conGroup ty (cfg.grp ty)) → isStatus r = false := by
       intro r hr; obtain ⟨t, g, e⟩ := hgrp r hr; subst e; rfl
     refine ⟨?_, ?_, rfl⟩
@@ -448,11 +507,13 @@ theorem einv_finish (cfg : Cfg) (hn : cfg.types.Nodup) (s : XState) (h : EInv cf
         List.filter_eq_nil_iff.mpr (fun r hr => by simp [isStatusTy_isStatus ty r (hold r hr)])
       have e2 : (varRecs 0 s.vars).filter (isStatusTy ty) = [] :=
         List.filter_eq_nil_iff.mpr (fun r hr => by simp [isStatusTy_isStatus ty r (hvs r hr)])
+      have e4 : (objRecs 0 s.objs).filter (isStatusTy ty) = [] :=
+        List.filter_eq_nil_iff.mpr (fun r hr => by simp [isStatusTy_isStatus ty r (hos r hr)])
       have e3 : (cfg.types.map (fun ty => Rec.conGroup ty (cfg.grp ty))).filter (isStatusTy ty) = [] :=
         List.filter_eq_nil_iff.mpr (fun r hr => by simp [isStatusTy_isStatus ty r (hgs r hr)])
-      rw [e1, e2, e3, af_filter cfg s.cons ty cfg.types hn]
+      rw [e1, e2, e3, e4, af_filter cfg s.cons ty cfg.types hn]
       simp [hty]
-    · simp only [finishState, finishRecs, md_append, md_nostatus _ hold, md_nostatus _ hvs, md_nostatus _ hgs, af_delivered]
+    · simp only [finishState, finishRecs, md_append, md_nostatus _ hold, md_nostatus _ hvs, md_nostatus _ hos, md_nostatus _ hgs, af_delivered]
       simp
 
 theorem einv_step (cfg : Cfg) (ok : CfgOk cfg) (s : XState) (h : EInv cfg s) (e : Ev) : EInv cfg (xev cfg s e) := by
@@ -524,6 +585,36 @@ theorem einv_step (cfg : Cfg) (ok : CfgOk cfg) (s : XState) (h : EInv cfg s) (e 
           rw [he] at hs
           simp only [refIn, hs, Bool.and_eq_true, decide_eq_true_eq]
           omega
+  | nlObj =>
+    simp only [xev]; split
+    · exact einv_reject cfg s h
+    · rename_i hf
+      exact einv_append1 cfg s _ h (Rec.nlObj s.nlObjs) rfl rfl rfl rfl rfl rfl rfl (by simpa using hf)
+        (fun _ => rfl) rfl (fun _ _ _ _ e => by cases e) (fun _ _ _ e => by cases e)
+  | nlCon l =>
+    simp only [xev]; split
+    · exact einv_reject cfg s h
+    · rename_i hf
+      exact einv_append1 cfg s _ h (Rec.nlCon s.nlCons.length l) rfl rfl rfl rfl rfl rfl rfl (by simpa using hf)
+        (fun _ => rfl) rfl (fun _ _ _ _ e => by cases e) (fun _ _ _ e => by cases e)
+  | nlDefVar =>
+    simp only [xev]; split
+    · exact einv_reject cfg s h
+    · rename_i hf
+      exact einv_append1 cfg s _ h (Rec.nlDefVar s.nlDefs) rfl rfl rfl rfl rfl rfl rfl (by simpa using hf)
+        (fun _ => rfl) rfl (fun _ _ _ _ e => by cases e) (fun _ _ _ e => by cases e)
+  | addObj info =>
+    simp only [xev]; split
+    · exact einv_reject cfg s h
+    · rename_i hf
+      exact einv_append1 cfg s _ h (Rec.obj s.objs.length info) rfl rfl rfl rfl rfl rfl rfl (by simpa using hf)
+        (fun _ => rfl) rfl (fun _ _ _ _ e => by cases e) (fun _ _ _ e => by cases e)
+  | setObj i info =>
+    simp only [xev]; split
+    · exact einv_reject cfg s h
+    · rename_i hf
+      simp only [Bool.or_eq_true, Bool.not_eq_true', not_or] at hf
+      exact einv_sameOut cfg s _ h (SLe_refl s) rfl rfl (fun _ => rfl) rfl rfl (by simpa using hf.1) rfl
   | link lty en src dst =>
     simp only [xev]; split
     · rename_i hg; exact einv_link cfg s h lty en src dst hg
